@@ -25,6 +25,12 @@ make_cfg()                                   -> Config (tracing off)
 make_sources(n, weights=None)                -> list of PointLikeSource  (names S0..; dec spread; weight w_k)
 make_shg_mgr(cfg, sources, group_sizes=None) -> SourceHypoGroupManager; group_sizes e.g. [2, 1] splits the
                                                 source list into consecutive hypothesis groups (default: one)
+make_shg_mgr(..., builders=None)             -> builders: per group a DetSigYieldBuilder or a list of them (one per dataset),
+                                                e.g. TableDetSigYieldBuilder; default: a do-nothing builder
+make_datasets(cfg, J)                        -> (dataset_list, data_list) of J real, empty Dataset 'DS0'.. / DatasetData objects,
+                                                for the REAL skyllh.core.services.DetSigYieldService
+TableDetSigYieldBuilder(cfg, table, use_factory=False, bid=None)
+                                             -> real DetSigYieldBuilder with prescribed yields table[dataset name][source name]
 make_pmm(sources, params=(), ns_init=1.0, ns_max=1e9, ns_min=None, detector='first', ns_last=False)
                                              -> ParameterModelMapper with models [DetectorModel('det')] + sources
                                                 ('first'|'last'|None), global parameter 'ns' mapped to the
@@ -128,21 +134,77 @@ class _NoDetSigYieldBuilder(object):
         return cls._cls(cfg=cfg)
 
 
-def make_shg_mgr(cfg, sources, group_sizes=None):
+def make_shg_mgr(cfg, sources, group_sizes=None, builders=None):
     from skyllh.core.flux_model import SteadyPointlikeFFM
     from skyllh.core.source_hypo_grouping import SourceHypoGroup, SourceHypoGroupManager
     if group_sizes is None:
         group_sizes = [len(sources)]
     assert sum(group_sizes) == len(sources) and all(g > 0 for g in group_sizes)
     groups, i = [], 0
-    for g in group_sizes:
+    for gi, g in enumerate(group_sizes):
         groups.append(SourceHypoGroup(
             sources=sources[i:i + g],
             fluxmodel=SteadyPointlikeFFM(Phi0=1, energy_profile=None, cfg=cfg),
-            detsigyield_builders=_NoDetSigYieldBuilder.make(cfg),
+            detsigyield_builders=builders[gi] if builders is not None else _NoDetSigYieldBuilder.make(cfg),
             sig_gen_method=None))
         i += g
     return SourceHypoGroupManager(groups)
+
+
+def make_datasets(cfg, J):
+    """-> (dataset_list, data_list): J real (empty) Dataset 'DS0'.. / DatasetData objects for the real DetSigYieldService"""
+    from skyllh.core.dataset import Dataset, DatasetData
+    from skyllh.core.storage import DataFieldRecordArray
+    dataset_list = [Dataset(cfg=cfg, name='DS%d' % j, exp_pathfilenames=None, mc_pathfilenames=None, livetime=1.,
+                            default_sub_path_fmt='', version=1) for j in range(J)]
+    data_list = [DatasetData(data_exp=None, data_mc=DataFieldRecordArray({'x': np.zeros((1,))}), livetime=1.)
+                 for j in range(J)]
+    return (dataset_list, data_list)
+
+
+def TableDetSigYieldBuilder(cfg, table, use_factory=False, bid=None):
+    """A real DetSigYieldBuilder whose detector signal yields are prescribed: table[dataset name][source name] -> Y.
+    The yield it builds depends on the *dataset* and the *source hypothesis group* it is asked for (so one shared builder
+    serves several datasets) and on the builder itself (so that it matters which builder is asked).  use_factory=True
+    makes it offer get_detsigyield_construction_factory() (several groups built in one call).  ``.calls`` records
+    (dataset name, tuple of source names) of every construction."""
+    from skyllh.core.detsigyield import DetSigYield, DetSigYieldBuilder
+
+    class _TableDetSigYield(DetSigYield):
+        def __init__(self, row, **kwargs):
+            super().__init__(param_names=[], **kwargs)
+            self._row = dict(row)
+
+        def sources_to_recarray(self, sources):
+            arr = np.empty((len(sources),), dtype=[('Y', np.float64)])
+            for (i, src) in enumerate(sources):
+                arr['Y'][i] = self._row[src.name]
+            return arr
+
+        def __call__(self, src_recarray, src_params_recarray=None):
+            return (np.array(src_recarray['Y'], dtype=np.float64), {})
+
+    class _TableDetSigYieldBuilder(DetSigYieldBuilder):
+        def __init__(self):
+            super().__init__(cfg=cfg)
+            self.bid = bid
+            self.table = table
+            self.calls = []
+
+        def construct_detsigyield(self, dataset, data, shg, ppbar=None):
+            self.calls.append((dataset.name, tuple(s.name for s in shg.source_list)))
+            return _TableDetSigYield(row=self.table[dataset.name], dataset=dataset, fluxmodel=shg.fluxmodel,
+                                     livetime=1.)
+
+        def get_detsigyield_construction_factory(self):
+            if not use_factory:
+                return None
+
+            def factory(dataset, data, shgs, ppbar=None):
+                return [self.construct_detsigyield(dataset, data, shg) for shg in shgs]
+            return factory
+
+    return _TableDetSigYieldBuilder()
 
 
 def make_param(name, initial, vmin, vmax, fixed=False):
